@@ -12,9 +12,11 @@ package c01
 import (
 	"context"
 	"fmt"
+	"math"
 	"math/rand"
 	"runtime"
 	"sort"
+	"strconv"
 	"strings"
 	"sync"
 	"sync/atomic"
@@ -170,9 +172,21 @@ func generator(g int, cfg config, rng *rand.Rand, in chan<- []*statsd.Datagram, 
 				}
 				switch typ := 1 + rng.Intn(4); typ {
 				case 1:
+					name := fmt.Sprintf("c.s%d", s)
+					if rng.Intn(3) == 0 {
+						// fractional values and non-dyadic rates: value/rate is not an integer, so the truncation
+						// direction matters (towards zero, also for negative quotients)
+						v := float64(rng.Intn(81)-40) / 4
+						rate := []float64{1, 0.5, 0.3, 0.7, 0.15}[rng.Intn(5)]
+						vs, rs := strconv.FormatFloat(v, 'f', -1, 64), strconv.FormatFloat(rate, 'f', -1, 64)
+						fmt.Fprintf(&sb, "%s:%s|c|@%s%s\n", name, vs, rs, tagStr)
+						pv, _ := strconv.ParseFloat(vs, 64)
+						pr, _ := strconv.ParseFloat(rs, 64)
+						ex.counters[seriesKey(1, cfg.Namespace, name, tags, src)] += int64(math.Trunc(pv / pr))
+						break
+					}
 					v := rng.Intn(41) - 20
 					rate := rates[rng.Intn(len(rates))]
-					name := fmt.Sprintf("c.s%d", s)
 					fmt.Fprintf(&sb, "%s:%d|c|@%s%s\n", name, v, fmtRate(rate), tagStr)
 					ex.counters[seriesKey(1, cfg.Namespace, name, tags, src)] += int64(float64(v) / rate)
 				case 2:
